@@ -124,7 +124,7 @@ template <class T> static void check_classify(pbt::Ctx& c, T x) {
 template <class T> static const char* iclass(T x, const char* k) {  // finer classes for the x+0.5 family (x >= 0, finite); k = xclass(x)
 	if (x < T(0.5)) return x == pred_half<T>() ? "x=0.5-ulp" : (refc::is_zero(x) ? "zero" : "x<0.5");
 	if (x >= two_mant<T>()) {
-		if (x < two_mant<T>() * 2) return refc::iseven(x) ? "even-integer-in-[2^mant,2^(mant+1))" : "odd-integer-in-[2^mant,2^(mant+1))";
+		if (x < two_mant<T>() * 2) return refc::iseven(x) ? "even-integer-2^mant..2^(mant+1)" : "odd-integer-2^mant..2^(mant+1)";
 		return "integer>=2^(mant+1)";
 	}
 	if (k[0] == 't') return "tie";
